@@ -71,6 +71,9 @@ type Exec struct {
 	defDecls     []string
 	assertSyms   []assertInfo
 	idxTerms     []idxTerm
+	opaqueCalls  []string
+	curCall      *ssa.CallCommon
+	funcProps    []string // props of the function under contract: all of its obligations count for them
 	boolSymSet   map[string]bool
 	boolSymN     int
 	symMu        sync.Mutex
@@ -310,6 +313,9 @@ func leadSort(nLead int, l Leaf) string {
 func (x *Exec) readLoc(st *State, loc *Loc) Val {
 	out := x.readLocPure(st, loc)
 	x.assumeTypeInv(st, &out, 0)
+	if loc.Kind == locMem && len(loc.Steps) == 0 && strings.HasPrefix(loc.Key, "G:") && x.V.sentinelErr[loc.Key] && len(out.L) > 0 {
+		x.assume(st, "(not (= "+out.L[0]+" 0))")
+	}
 	return out
 }
 
